@@ -34,7 +34,7 @@ structure Cfg where
   boundary : Nat := Consts.BACKPRESSURE_BOUNDARY   -- `BACKPRESSURE_BOUNDARY` of the substream's sink
   deriving DecidableEq, Repr
 
-inductive SendRes | ok | clogged | noconn | nopeer | waiting
+inductive SendRes | ok | clogged | noconn | nopeer | waiting | blocked
   deriving DecidableEq, Repr
 
 structure Chan where
@@ -81,6 +81,32 @@ def asyncSend (c : Chan) (m : Msg) : Chan × SendRes :=
   else if c.waiting.isEmpty && c.asyncQ.length < c.cfg.asyncCap then
     ({ c with asyncQ := c.asyncQ ++ [m], accA := c.accA ++ [m] }, .ok)
   else ({ c with waiting := c.waiting ++ [m] }, .waiting)
+
+/-- `NotificationSink::send_sync_notification` on a clone obtained with `notification_sink()` while stream number
+`g` was the one in the handle's view: the clone knows nothing of the handle (no `clogged` flag, no `ForceClose`). -/
+def sinkSync (c : Chan) (g : Nat) (m : Msg) : Chan × SendRes :=
+  if !c.alive || g != c.gen then (c, .noconn)
+  else if c.syncQ.length ≥ c.cfg.syncCap then (c, .clogged)
+  else ({ c with syncQ := c.syncQ ++ [m], accS := c.accS ++ [m] }, .ok)
+
+/-- `NotificationSink::send_async_notification` on such a clone, first poll. -/
+def sinkAsync (c : Chan) (g : Nat) (m : Msg) : Chan × SendRes :=
+  if !c.alive || g != c.gen then (c, .noconn)
+  else if c.waiting.isEmpty && c.asyncQ.length < c.cfg.asyncCap then
+    ({ c with asyncQ := c.asyncQ ++ [m], accA := c.accA ++ [m] }, .ok)
+  else ({ c with waiting := c.waiting ++ [m] }, .waiting)
+
+/-- `NotificationHandle::send_async_notification` polled once and dropped if it has to wait (`blocked`): a
+cancelled `Sender::send` sends nothing. -/
+def asyncOnce (c : Chan) (m : Msg) : Chan × SendRes :=
+  if !c.viewHas then (c, .nopeer)
+  else if !c.alive || c.viewGen != c.gen then (c, .noconn)
+  else if c.waiting.isEmpty && c.asyncQ.length < c.cfg.asyncCap then
+    ({ c with asyncQ := c.asyncQ ++ [m], accA := c.accA ++ [m] }, .ok)
+  else (c, .blocked)
+
+/-- `notification_sink()`: a clone of the sink in the handle's view, identified by its stream number. -/
+def getSink (c : Chan) : Option Nat := if c.viewHas then some c.viewGen else none
 
 /-- Waiting async senders take the free capacity, in order. Returns those that completed. -/
 def letIn (c : Chan) : Nat → Chan × List Msg
